@@ -72,6 +72,12 @@ def gen_cases(ctx, env, n):
             tt = ["mul", pools.factors_term(target), ["pow", ["u", other], exp]]
             cls = "partially-connected" if other != name else "shared-unconnected-factor"
             shape = (pools.shape_class(factors), pools.shape_class(target), d, exp)
+        try:
+            us, ut = mdl.eval_real(st) if cls in ("shipped", "product-defined") else None, mdl.eval_real(tt) if cls in ("shipped", "product-defined") else None
+        except Exception:
+            continue
+        if us is not None and env.orc.knows(us) and env.orc.knows(ut) and (env.orc.dynamic_range(us) + env.orc.dynamic_range(ut)) * 1.5 + 8 > 280:
+            continue  # partial products may leave the float range (OverflowError / division by a zero that underflowed)
         kind = rng.choice(["convert", "convert", "convert", "add", "sub", "eq", "lt", "le", "gt", "sorted"])
         m1, m2 = pools.magnitude(rng), pools.magnitude(rng)
         if kind == "convert":
